@@ -125,7 +125,21 @@ func vBytes(name string, n int) []byte {
 func vStream(name string, n int) []byte {
 	vLoadModel()
 	b := make([]byte, n)
-	if v, ok := vModel[vUniq(name)].(map[string]interface{}); ok {
+	uname := vUniq(name)
+	// The model carries the first bytes of a stream only. Everything behind
+	// them gets a pattern that depends on the stream and the position, so that
+	// two different streams differ natively almost everywhere (a replay has to
+	// reproduce the failed assertion on these inputs, not the solver's witness
+	// index); any assertion that fails natively fails on concrete inputs of
+	// the real code.
+	h := uint32(2166136261)
+	for i := 0; i < len(uname); i++ {
+		h = (h ^ uint32(uname[i])) * 16777619
+	}
+	for i := range b {
+		b[i] = byte((h + uint32(i)*2654435761) >> 24)
+	}
+	if v, ok := vModel[uname].(map[string]interface{}); ok {
 		if bs, ok := v["bytes"].([]interface{}); ok {
 			for i := range bs {
 				if i < n {
